@@ -272,8 +272,9 @@ def obligations(tier, seed):
         Ob("pfc_foreign_header", func="h_pfc_seq", desc="pfc_seq with the header of another page of the same magazine fed before every page header of ours but the first (serial "
            "mode: other pages lie between two transmissions of our page; sub-code, control bits and text of the foreign header symbolic): nothing changes, every block delivered",
            encodes=["vbi_pfc_demux_feed", "_vbi_pfc_demux_decode"], defines={},
-           grid=[dict(NB=3, SZ0=5, SZ1=40, SZ2=3, UNREL=0, FOREIGN_HDR=1), dict(NPAGES=2, PPP=2, NB=2, SZ0=90, SZ1=4, PAD0=3, MAG=0, PG=0x1C, STREAM=0, CI0=15, FOREIGN_HDR=1)],
-           bounds="2 layouts, no loss", reach=["end", "some"], timeout=600, mem_gb=3, **pfc_seq),
+           grid=[dict(NB=3, SZ0=5, SZ1=40, SZ2=3, UNREL=0, FOREIGN_HDR=1), dict(NPAGES=2, PPP=2, NB=2, SZ0=90, SZ1=4, PAD0=3, MAG=0, PG=0x1C, STREAM=0, CI0=15, FOREIGN_HDR=1),
+                 dict(NPAGES=2, PPP=2, NB=2, SZ0=90, SZ1=4, PAD0=3, MAG=0, PG=0x1C, STREAM=0, CI0=15, FOREIGN_HDR=3)],     # (a block spanning both pages) FOREIGN_HDR=3: the foreign header is followed by a row packet of that page (a whole unrelated page in between)
+           bounds="3 layouts, no loss", reach=["end", "some"], timeout=600, mem_gb=3, **pfc_seq),
     ] + ([
         # FORMER CANDIDATES (refuted the pinned tree; the defects are repaired by fix commits, the obligations now guard them):, see the report of the seed evaluation (TODO-defect-candidates.md item 4)
         Ob("pfc_last_packet_loss_foreign_header", func="h_pfc_seq", desc="pfc_last_packet_loss with the header of another page of the same magazine between the two pages: "
